@@ -30,7 +30,7 @@ VARIABLES g,          \* the gadget
 dvars == <<g, gh>>
 
 HLL == 2
-U == INSTANCE HllUnion WITH un <- (1 :> gh), UIds <- {1}, LgMaxKs <- {LgMaxK}, UCoupons <- Items, TrackFed <- TRUE
+U == INSTANCE HllUnion WITH un <- (1 :> gh), UIds <- {1}, LgMaxKs <- {LgMaxK}, UCoupons <- Items, UBigs <- {FALSE}, TrackFed <- TRUE
 
 Slots(lg) == 0..(2^lg - 1)
 Zeros(r) == Cardinality({s \in DOMAIN r : r[s] = 0})
@@ -76,7 +76,7 @@ UnionImpl(dst, src) ==
             ELSE MergeHll(IF src.lg < dst.lg THEN CopyOrDownsample(dst, src.lg) ELSE dst, src)
        ELSE CopyOrDownsample(src, LgMaxK)
 
-Init == g = EmptyList(LgMaxK) /\ gh = U!UFresh(LgMaxK)
+Init == g = EmptyList(LgMaxK) /\ gh = U!UFresh(LgMaxK, FALSE)
 \* update(const hll_sketch&) / update(hll_sketch&&); t8 = the argument's target type is HLL_8
 UpdateSketch(sv, rvalue, t8) ==
   /\ IF sv.empty THEN UNCHANGED g
@@ -94,7 +94,7 @@ GetEstimate ==
                [g EXCEPT !.cmin = m, !.nac = Cardinality({s \in DOMAIN g.reg : g.reg[s] = m}), !.rb = FALSE]
           ELSE g
   /\ UNCHANGED gh
-Reset == g' = EmptyList(IF FixedReset THEN LgMaxK ELSE g.lg) /\ gh' = U!UFresh(LgMaxK)
+Reset == g' = EmptyList(IF FixedReset THEN LgMaxK ELSE g.lg) /\ gh' = U!UFresh(LgMaxK, FALSE)
 Next == \/ \E sv \in Inputs, rv, t8 \in BOOLEAN : UpdateSketch(sv, rv, t8)
         \/ \E c \in Items : UpdateItem(c)
         \/ GetEstimate
